@@ -1,3 +1,4 @@
+\* the library's original allocation rule (before bc93373): must VIOLATE StableDesignation (ids alias after the wrap)
 SPECIFICATION Spec
 CONSTANTS
   MaxIds = 4
@@ -5,11 +6,10 @@ CONSTANTS
   KeepHist = FALSE
   IdSpace = 4
   Objs = {1}
-  SkipLive = TRUE
+  SkipLive = FALSE
   NeedBurn = FALSE
   MustBurn = FALSE
 VIEW view
 CONSTRAINT Bound
-INVARIANTS CacheCoherent NoDupCache LookupAbstract FreshIds
 PROPERTY StableDesignation
 CHECK_DEADLOCK FALSE
